@@ -89,6 +89,16 @@ pub fn run(kind: &str, path: &str) -> i32 {
       println!("{}", serde_json::Value::Array(out));
       0
     }
+    // {"text": escaped literal content} -> code points of unescape_text(text)
+    "unescape" => {
+      let text = std::fs::read_to_string(path).expect("read args");
+      let v: serde_json::Value = serde_json::from_str(&text).expect("json");
+      let t = v.get("text").and_then(|x| x.as_str()).expect("text");
+      let out = cddl::pest_bridge::verif_hooks::unescape_text(t);
+      let cps: Vec<u32> = out.chars().map(|c| c as u32).collect();
+      println!("{}", serde_json::json!({"code_points": cps}));
+      0
+    }
     // {"cases": [{"cddl": text, "json": text} | {"cddl": text, "cbor": [bytes]}]} -> verdicts
     "validate" => {
       let text = std::fs::read_to_string(path).expect("read args");
